@@ -13,15 +13,19 @@ import (
 
 	"github.com/goose-lang/goose/machine"
 
+	"verif/csched"
 	"verif/ev"
+	"verif/hpar"
 	"verif/libh"
+	"verif/mcx"
 )
 
 type Case struct {
-	W    int    `json:"w"` // 8 or 4
-	V    uint64 `json:"v"`
-	Len  int    `json:"len"`
-	Fill byte   `json:"fill"`
+	W     int    `json:"w"` // 8 or 4
+	V     uint64 `json:"v"`
+	Len   int    `json:"len"`
+	Fill  byte   `json:"fill"`
+	Extra int    `json:"extra,omitempty"` // spare capacity behind the buffer (the buffer is a window of a larger array)
 }
 
 func values(w int) []uint64 {
@@ -55,11 +59,19 @@ func values(w int) []uint64 {
 }
 
 func check(c Case) string {
-	buf := make([]byte, c.Len)
-	for i := range buf {
-		buf[i] = c.Fill ^ byte(i*3)
+	backing := make([]byte, c.Len+c.Extra)
+	for i := range backing {
+		backing[i] = c.Fill ^ byte(i*3)
 	}
+	buf := backing[:c.Len]
 	before := append([]byte(nil), buf...)
+	spareBefore := append([]byte(nil), backing[c.Len:]...)
+	spareOK := func() string {
+		if string(backing[c.Len:]) != string(spareBefore) {
+			return fmt.Sprintf("bytes behind the buffer (len %d, cap %d) were written: % x -> % x", c.Len, cap(buf), spareBefore, backing[c.Len:])
+		}
+		return ""
+	}
 	put := func() {
 		if c.W == 8 {
 			machine.UInt64Put(buf, c.V)
@@ -81,11 +93,17 @@ func check(c Case) string {
 		if string(buf) != string(before) {
 			return fmt.Sprintf("Put into a too-short buffer was refused but wrote bytes: % x -> % x", before, buf)
 		}
+		if m := spareOK(); m != "" {
+			return m
+		}
 		var got uint64
 		if p := libh.Try(func() { got = get(buf) }); p == "" {
 			return fmt.Sprintf("Get from a too-short buffer was not refused (returned %d)", got)
 		}
 		return ""
+	}
+	if m := spareOK(); m != "" {
+		return m
 	}
 	if p != "" {
 		return "Put panicked on a long-enough buffer: " + p
@@ -108,8 +126,8 @@ func check(c Case) string {
 		return fmt.Sprintf("Get returned %#x after Put(%#x)", got, c.V)
 	}
 	// Get reads only the frame: changing later bytes must not change the result
-	for i := c.W; i < c.Len; i++ {
-		buf[i] ^= 0xFF
+	for i := c.W; i < len(backing); i++ {
+		backing[i] ^= 0xFF
 	}
 	if g2 := get(buf); g2 != c.V {
 		return fmt.Sprintf("Get depends on bytes outside the frame: %#x vs %#x", g2, c.V)
@@ -121,6 +139,93 @@ func check(c Case) string {
 		}
 	}
 	return ""
+}
+
+// ---------------------------------------------------------------- concurrent callers
+
+// Conc: two or three goroutines encode into and decode from their own buffers at
+// the same time (the primitives are stateless: callers on disjoint buffers must
+// not disturb each other).
+type Conc struct {
+	Ops [][2]int `json:"ops"` // per thread: width, value index
+}
+
+var concVals = []uint64{0x0102030405060708, 0xF1F2F3F4F5F6F7F8, 0x8877665544332211}
+
+func (c Conc) ID() string { return fmt.Sprint("conc:", c.Ops) }
+
+func concCase(c Conc, bound int) mcx.Case {
+	return mcx.Case{Prop: "C15", ID: c.ID(), Bound: bound, Replay: c, Mk: func() (func(), func(*csched.Sched) (string, string, string)) {
+		problems := make([]string, len(c.Ops))
+		body := func() {
+			var wg hpar.WaitGroup
+			wg.Add(len(c.Ops))
+			for t, op := range c.Ops {
+				t, op := t, op
+				hpar.Go(func() {
+					defer wg.Done()
+					w, v := op[0], concVals[op[1]]
+					buf := make([]byte, 12)
+					for i := range buf {
+						buf[i] = 0xEE
+					}
+					var got uint64
+					if w == 8 {
+						machine.UInt64Put(buf, v)
+						got = machine.UInt64Get(buf)
+					} else {
+						v &= 0xffffffff
+						machine.UInt32Put(buf, uint32(v))
+						got = uint64(machine.UInt32Get(buf))
+					}
+					for i := 0; i < 12; i++ {
+						want := byte(0xEE)
+						if i < w {
+							want = byte(v >> (8 * i))
+						}
+						if buf[i] != want {
+							problems[t] = fmt.Sprintf("thread %d: UInt%dPut(%#x) into its own buffer left % x (byte %d wants 0x%02x) while other goroutines encode other values", t, w*8, v, buf, i, want)
+							return
+						}
+					}
+					if got != v {
+						problems[t] = fmt.Sprintf("thread %d: UInt%dGet of its own buffer returned %#x, want %#x", t, w*8, got, v)
+					}
+				})
+			}
+			wg.Wait()
+		}
+		verdict := func(s *csched.Sched) (string, string, string) {
+			if s != nil {
+				if p := mcx.ThreadPanics(s); p != "" {
+					return "panic", p, "panic"
+				}
+			}
+			if s != nil && s.Deadlock {
+				return "deadlock", fmt.Sprint(s.BlockedDesc), "deadlock"
+			}
+			for _, p := range problems {
+				if p != "" {
+					return "interference", p, "bad"
+				}
+			}
+			return "", "", "ok"
+		}
+		return body, verdict
+	}}
+}
+
+func concCases(tier string) []Conc {
+	var out []Conc
+	for _, a := range [][2]int{{8, 0}, {4, 0}} {
+		for _, b := range [][2]int{{8, 1}, {4, 1}} {
+			out = append(out, Conc{Ops: [][2]int{a, b}})
+			if tier == "thorough" {
+				out = append(out, Conc{Ops: [][2]int{a, b, {8, 2}}}, Conc{Ops: [][2]int{a, b, {4, 2}}})
+			}
+		}
+	}
+	return out
 }
 
 func main() {
@@ -136,6 +241,20 @@ func main() {
 		if json.Unmarshal(b, &rf) != nil {
 			os.Exit(3)
 		}
+		var rc struct {
+			Replay struct {
+				Scenario Conc   `json:"scenario"`
+				Choices  []byte `json:"choices"`
+			} `json:"replay"`
+		}
+		if json.Unmarshal(b, &rc) == nil && len(rc.Replay.Scenario.Ops) > 0 {
+			if mcx.ReplayOne(concCase(rc.Replay.Scenario, 99), rc.Replay.Choices) {
+				fmt.Printf("VIOLATION property=C15 replay=%s\n", *replay)
+				os.Exit(1)
+			}
+			fmt.Println("replay: property holds on this schedule")
+			return
+		}
 		if m := check(rf.Replay); m != "" {
 			fmt.Printf("%s\nVIOLATION property=C15 replay=%s\n", m, *replay)
 			os.Exit(1)
@@ -143,13 +262,38 @@ func main() {
 		fmt.Println("replay: property holds on this input")
 		return
 	}
+	bound := 2
+	if *tier == "thorough" {
+		bound = 3
+	}
+	if hpar.Free {
+		// free-running -race complement: the same bodies on real goroutines
+		acc := ev.NewAcc()
+		for _, c := range concCases(*tier) {
+			for r := 0; r < 200; r++ {
+				body, verdict := concCase(c, 0).Mk()
+				body()
+				acc.Add("free_runs", 1)
+				if kind, msg, _ := verdict(nil); kind != "" {
+					acc.Violate(ev.Violation{Key: "C15/" + c.ID() + "/free-" + kind, Msg: "free-running: " + msg, Replay: map[string]any{"scenario": c, "mode": "free"}})
+				}
+			}
+		}
+		acc.EmitChild()
+		return
+	}
 	acc := ev.NewAcc()
+	for _, c := range concCases(*tier) {
+		mcx.Explore(concCase(c, bound), acc)
+	}
+	mcx.RacePass(acc, "C15", *tier)
 	for _, w := range []int{8, 4} {
 		vals := values(w)
 		for _, v := range vals {
 			for l := 0; l <= 12; l++ {
-				for _, fill := range []byte{0x00, 0xA5} {
-					c := Case{W: w, V: v, Len: l, Fill: fill}
+				for _, fe := range [][2]int{{0x00, 0}, {0xA5, 0}, {0x00, 8}, {0xA5, 1}, {0x5A, 4096}} {
+					fill := byte(fe[0])
+					c := Case{W: w, V: v, Len: l, Fill: fill, Extra: fe[1]}
 					acc.Add("evaluations", 1)
 					if l >= w {
 						acc.Set("nontrivial", fmt.Sprintf("%d/%x/%d", w, v, l))
@@ -159,7 +303,7 @@ func main() {
 						if l < w {
 							kind = "short-buffer"
 						}
-						acc.Violate(ev.Violation{Key: fmt.Sprintf("C15/u%d/%s/len%d/v%x/fill%x", w*8, kind, l, v, fill), Msg: fmt.Sprintf("UInt%d value %#x, buffer length %d: %s", w*8, v, l, m), Replay: c})
+						acc.Violate(ev.Violation{Key: fmt.Sprintf("C15/u%d/%s/len%d+%d/v%x/fill%x", w*8, kind, l, c.Extra, v, fill), Msg: fmt.Sprintf("UInt%d value %#x, buffer length %d (capacity %d): %s", w*8, v, l, l+c.Extra, m), Replay: c})
 					}
 				}
 			}
@@ -167,8 +311,8 @@ func main() {
 		acc.Sample(map[string]any{"width_bytes": w, "values": len(vals), "example": Case{W: w, V: vals[300], Len: 9, Fill: 0xA5}}, 4)
 	}
 	os.Exit(acc.Done(ev.Finish{
-		Prop: "C15", Tier: *tier, Level: "exploration", Start: start,
-		Rule:        "values: every byte value in every byte lane with the other lanes all 0 and all 0xFF, 0, max, 2^k, 2^k+-1, two mixed constants; x buffer lengths 0..12 x two prior fills, for both widths; non-trivial = (width,value,length) with length >= width (the encoding, the frame, Get-after-Put and Get's independence of later bytes are all checked); shorter buffers check refusal without partial write. Put/Get act lane-wise, so every lane x every byte value covers every table an implementation could index",
+		Prop: "C15", Tier: *tier, Level: "model_checking", Start: start,
+		Rule:        "values: every byte value in every byte lane with the other lanes all 0 and all 0xFF, 0, max, 2^k, 2^k+-1, two mixed constants; x buffer lengths 0..12 x prior fills x spare capacity behind the buffer {0,1,8,4096} (the buffer is a window of a larger array: nothing behind len may be read or written), for both widths; non-trivial = (width,value,length) with length >= width (the encoding, the frame, Get-after-Put and Get's independence of later bytes are all checked); shorter buffers check refusal without partial write. Put/Get act lane-wise, so every lane x every byte value covers every table an implementation could index. Concurrent callers: 2 (thorough 3) goroutines each doing Put then Get of its own value on its own buffer, both widths, every interleaving of the statements of machine/prims.go with <= 2 (thorough 3) preemptions, plus a free-running -race pass of the same bodies",
 		Assumptions: []string{"values outside the lane/corner domain are covered by the lane-wise argument, not enumerated"},
 		Extra:       map[string]any{"distinct_nontrivial": len(acc.Sets["nontrivial"])},
 	}))
